@@ -215,10 +215,13 @@ impl NodePostProcessor for RenameTypeDeclarationProcessor {
 
                 let first_line = lines::statement_first(&current);
                 let last_line = lines::statement_total(&current);
-                let total = 1 + last_line.saturating_sub(first_line) as isize;
+                // the comments before the declaration move with it
+                let leading_lines = lines::statement_leading_lines(&current) as isize;
+                let total = leading_lines + 1 + last_line.saturating_sub(first_line) as isize;
 
-                let mut shift_processor =
-                    ShiftTokenLineProcessor::new(1 + self.type_lines - first_line as isize);
+                let mut shift_processor = ShiftTokenLineProcessor::new(
+                    1 + self.type_lines + leading_lines - first_line as isize,
+                );
                 DefaultVisitor::visit_statement(&mut current, &mut shift_processor);
 
                 self.type_lines += total;
